@@ -463,6 +463,8 @@ def getattr_(R, E, base, attr, node):
         c = npmodel.CONSTS.get(full, _NO)
         if c is not _NO:
             return c
+        if full in npmodel.REMOVED_IN_NUMPY2:
+            E.raise_("AttributeError", node, "safety")
         return ExternFn(full)
     if isinstance(base, Obj):
         if attr in base.fields:
